@@ -65,6 +65,19 @@ def str_random(rng, twin, n):
     return out
 
 
+def str_big(rng, twin):
+    """static_string<N> at the 16-bit boundary: C strings of N-2 .. N+3 characters, then push_back up to and beyond capacity"""
+    out = []
+    for cap in (65535, 65536, 65537):
+        out.append("R %d" % cap)
+        for n in (cap + 3, cap - 2):
+            out.append("CtorCStr " + fmtb([rng.choice([65, 66, 0x7f, 0x80, 0xff, 1]) for _ in range(n)]))
+            out += ["PushBack 65", "PushBack 66", "Copy", "PushBack 67", "PushBack 68"]
+            if twin: out += ["PlusEq 69", "Clear", "PushBack 70"]
+            out.append("Destroy")
+    return out
+
+
 def check(ctx):
     drv, drv_sp, drs, drs_sp = build(ctx)
     r, g = ctx.tlc_graph("VecLife", "VecLifeStaticGraphThorough.cfg" if ctx.thorough else "VecLifeStaticGraph.cfg", workers=8, timeout=1800)
@@ -85,6 +98,13 @@ def check(ctx):
     for el in ("tracked", "int"):
         rnd_main += vc.big_static_script(ctx.rng, el)
         rnd_sp += vc.big_static_script(ctx.rng, el, old_iface=True)
+        for N in (255, 256):
+            rnd_main += vc.big_static_script(ctx.rng, el, N=N)
+            rnd_sp += vc.big_static_script(ctx.rng, el, old_iface=True, N=N)
+    # capacities at the 16-bit boundary (a size counter or index narrower than size_t): N = 65535, 65536, 65537, filled to exactly N
+    for N in (65535, 65536, 65537):
+        rnd_main += vc.big_static_script(ctx.rng, "int", N=N)
+        rnd_sp += vc.big_static_script(ctx.rng, "int", old_iface=True, N=N)
     traces = [(drv, s_main, "svec_cover"), (drv, rnd_main, "svec_random"), (drv_sp, s_sp, "svec_sp_cover"), (drv_sp, rnd_sp, "svec_sp_random")]
     for (d, sc, name) in traces:
         t = ctx.drive(d, sc, name)
@@ -97,12 +117,13 @@ def check(ctx):
         sc, nc, tot = str_scripts(ctx, g2, twin)
         ctx.extra[name + "_edges"] = [nc, tot]
         sc += str_random(ctx.rng, twin, 2000 if ctx.thorough else 400)
+        sc += str_big(ctx.rng, twin)
         t = ctx.drive(d, sc, name)
         bad = ctx.judge("FixedStrTrace", [t], label=name)
         for b in bad: b["driver"] = "drv_sstring_sp" if twin else "drv_sstring"
         ctx.report(bad)
     ctx.assumptions += [
-        "capacities N in {1,2,3,5,300} (static_vector) and {1,2,3,4,7,8,16,255,256,300} (static_string); constructor sources of length 0..2N(+2)",
+        "capacities N in {1,2,3,5,255,256,300,65535,65536,65537} (static_vector; the last three with int elements) and {1,2,3,4,7,8,16,255,256,300,65535,65536,65537} (static_string); constructor sources of length 0..2N(+2)",
         "the inline storage of a static_vector is registered as one block of N slots; the lifetime ledger of VecLife.tla judges every element event in it; the bytes around each object are guard bytes that every event reports",
         "std_portable.h static_vector is the older interface (no range/list constructor, no erase); its move constructor leaves the moved-from elements in the source, which the model allows (their values are adopted from the observation, their number and lifetime are checked)",
         "igris/container/static_string.h operator[] does not instantiate (returns the address of a char as a char reference) and is not part of the check; unbounded_array.h is not part of the property statement and is not judged",
